@@ -81,9 +81,14 @@ def ensure_facts(variant="dev"):
     lock = open(os.path.join(CACHE, "facts", ".lock-" + variant), "w")
     fcntl.flock(lock, fcntl.LOCK_EX)
     try:
+        if os.path.exists(fact):
+            try: os.utime(d, None)
+            except OSError: pass
         if not os.path.exists(fact):
-            # keep the cache small: drop facts of other trees
-            for old in glob.glob(os.path.join(CACHE, "facts", "*-" + variant)):
+            # keep the cache small, but never pull the facts out from under a concurrent run on another tree:
+            # only the oldest entries beyond the 16 most recently used are dropped
+            olds = sorted(glob.glob(os.path.join(CACHE, "facts", "*-" + variant)), key=os.path.getmtime)
+            for old in olds[:-16]:
                 shutil.rmtree(old, ignore_errors=True)
             tmp = d + ".tmp"
             shutil.rmtree(tmp, ignore_errors=True)
